@@ -290,6 +290,9 @@ def apply_special(rng, prog, kind):
     cand = list(range(len(nodes)))
     rng.shuffle(cand)
     if kind == "late_ref":
+        cand = [i for i in cand if nodes[i]["mod"] == "a"]  # module a cannot name anything of module b
+        if not cand:
+            return None
         i = cand[0]
         name = "late_%d" % (p["serial"] + len(nodes))
         p["serial"] += 1
